@@ -2,6 +2,7 @@ import AfqmcVerif.Lemmas.SingleDet
 import AfqmcVerif.Lemmas.Estimator
 import AfqmcVerif.Lemmas.CisdOverlap
 import AfqmcVerif.Lemmas.UcisdOverlap
+import AfqmcVerif.Lemmas.GcisdOverlap
 import Mathlib.Data.Matrix.ColumnRowPartitioned
 import Mathlib.LinearAlgebra.Matrix.SchurComplement
 
@@ -111,5 +112,12 @@ theorem ucisd_overlap_is_manybody {ka va kb vb : ℕ} (Wa : Matrix (Fin (ka + va
     (hAA : ∀ i a j b, cAA i b j a = -cAA i a j b) (hBB : ∀ i a j b, cBB i b j a = -cBB i a j b) :
     AfqmcVerif.Excite.ucisdCode Wa Wb c1A c1B cAA cBB cAB = AfqmcVerif.Excite.ucisdSpec Wa Wb c1A c1B cAA cBB cAB :=
   AfqmcVerif.Excite.ucisd_overlap Wa Wb c1A c1B cAA cBB cAB hWa hWb h2 hAA hBB
+
+/-- **generalised CISD overlap** (`GCISD`, spin-orbital basis of the trial): `(1 + o1 + o2/4)·o0` equals the explicit
+expansion of `(1 + Σ c_ia E_ia + ¼ Σ c_iajb E_ia E_jb)|ref⟩`; no symmetry of the amplitudes is needed -/
+theorem gcisd_overlap_is_manybody {k v : ℕ} (W : Matrix (Fin (k + v)) (Fin k) K) (c1 : Fin k → Fin v → K)
+    (c2 : Fin k → Fin v → Fin k → Fin v → K) (hW : AfqmcVerif.Excite.D0 W ≠ 0) (h2 : (2 : K) ≠ 0) :
+    AfqmcVerif.Excite.gcisdCode W c1 c2 = AfqmcVerif.Excite.gcisdSpec W c1 c2 :=
+  AfqmcVerif.Excite.gcisd_overlap W c1 c2 hW h2
 
 end AfqmcVerif.Props.C01
